@@ -545,3 +545,7 @@ Example sami_entity_case :
   ev_chars (EvEntity (lit "Eacute")) = Some [201] /\ ev_chars (EvEntity (lit "eacute")) = Some [233] /\
   ev_chars (EvEntity (lit "Prime")) = Some [8243] /\ ev_chars (EvEntity (lit "prime")) = Some [8242].
 Proof. repeat split; vm_compute; reflexivity. Qed.
+
+(* the entry pycaption adds to the table itself *)
+Lemma sami_entity_apos : assoc_str (lit "apos") sami_name2codepoint = Some 39 /\ ev_chars (EvEntity (lit "apos")) = Some [39].
+Proof. split; vm_compute; reflexivity. Qed.
